@@ -118,6 +118,9 @@ InitState(engine) ==
     logOps    |-> FALSE,        \* trace validation only: keep the operator evaluations of the current rule
     ops       |-> << >>,        \* [var, key, val, m] per operator evaluation of the current rule
     guide     |-> << >>,
+    phase     |-> 0,            \* the phase being evaluated (ctl options are honoured up to a phase)
+    reqAccess |-> "cfg",        \* ctl:requestBodyAccess / responseBodyAccess overrides: "cfg" | "On" | "Off"
+    respAccess |-> "cfg",
     cacheOn   |-> FALSE,        \* EngineCache layer: share transformation results between rules of a phase
     cache     |-> {},           \* set of [k, v]: k = CacheKey(...), v = transformed value
     unsound   |-> FALSE,
@@ -282,6 +285,8 @@ ACtlRmTgt(id, col, sel) == [A("ctl") EXCEPT !.s = "ruleRemoveTargetById", !.n = 
 ACtlRmTgtTag(t, col, sel) == [A("ctl") EXCEPT !.s = "ruleRemoveTargetByTag", !.op = t, !.k = <<[col |-> col, sel |-> sel]>>]
 ACtlRmTgtMsg(m, col, sel) == [A("ctl") EXCEPT !.s = "ruleRemoveTargetByMsg", !.op = m, !.k = <<[col |-> col, sel |-> sel]>>]
 ACtlEngine(m)    == [A("ctl") EXCEPT !.s = "ruleEngine", !.op = m]
+ACtlReqAccess(v) == [A("ctl") EXCEPT !.s = "requestBodyAccess", !.op = v]
+ACtlRespAccess(v) == [A("ctl") EXCEPT !.s = "responseBodyAccess", !.op = v]
 
 NonDisruptive(act) == act.a \in {"setvar", "ctl"}
 FlowOrDisruptive(act) == act.a \in {"skip", "skipAfter", "allow", "deny", "drop", "redirect", "pass", "block"}
@@ -311,6 +316,9 @@ DoCtl(st, act) ==
     [] act.s = "ruleRemoveTargetByTag" -> [st EXCEPT !.rmTgts = Append(@, [by |-> "tag", id |-> 0, hi |-> 0, tag |-> act.op, col |-> act.k[1].col, sel |-> act.k[1].sel])]
     [] act.s = "ruleRemoveTargetByMsg" -> [st EXCEPT !.rmTgts = Append(@, [by |-> "msg", id |-> 0, hi |-> 0, tag |-> act.op, col |-> act.k[1].col, sel |-> act.k[1].sel])]
     [] act.s = "ruleEngine"           -> [st EXCEPT !.engine = act.op]
+    \* body access can be switched until the corresponding headers phase is over
+    [] act.s = "requestBodyAccess"    -> IF st.phase <= 1 THEN [st EXCEPT !.reqAccess = act.op] ELSE st
+    [] act.s = "responseBodyAccess"   -> IF st.phase <= 3 THEN [st EXCEPT !.respAccess = act.op] ELSE st
     [] OTHER -> st
 
 DoNonDisruptive(st, act) ==
@@ -504,7 +512,7 @@ RunRules(st, req, ord, rxMode, rules, i, p) ==
   IF i > Len(rules) THEN st
   ELSE RunRules(StepRule(st, req, ord, rxMode, rules[i], p).st, req, ord, rxMode, rules, i + 1, p)
 
-RunPhase(st, req, ord, rxMode, rules, p) == EndPhase(RunRules(st, req, ord, rxMode, rules, 1, p), p)
+RunPhase(st, req, ord, rxMode, rules, p) == EndPhase(RunRules([st EXCEPT !.phase = p], req, ord, rxMode, rules, 1, p), p)
 
 \* the canonical transaction: phases 1..5; phases 2-4 are not entered after an interruption
 RECURSIVE RunTx(_, _, _, _, _, _)
